@@ -7,13 +7,15 @@ LEVEL = "proof"
 LEAN_MODULES = ["DracoProps.C17"]
 RULE = ("exhaustive 8/16-bit varints (quick: all 8-bit, seeded slice of 16-bit); boundary-biased random 32/64-bit; "
         "varint decoder on random/garbage bytes; binary coders (rANS bit, adaptive rANS bit, direct, folded over both, "
-        "buffer bit mode with and without stored size): random op sequences (single bits and 1..32-bit groups, biases "
+        "buffer bit mode with and without stored size; whole item sequences — raw blocks, varints, bit regions of "
+        "both kinds in random order — on ONE EncoderBuffer read back by ONE DecoderBuffer): random op sequences (single bits and 1..32-bit groups, biases "
         "0, 0.002, 0.1, 0.5, 0.97, 0.9995, 1, lengths 0..4000 quick / 0..20000 thorough): encoder bytes model == "
         "implementation, real encode->decode round trip evaluated on the implementation (values and consumed bytes), "
         "decoders on trailing bytes / over-reads / truncations / bit flips / garbage under ASan+UBSan compared with the "
         "model; a case is non-trivial when it is a distinct op line")
 THEOREM_BACKED = ("varint_roundtrip, zigzag_roundtrip, scalar_roundtrip, bits_roundtrip, fastdiv_correct (generated table), "
-                  "rabs_roundtrip, ransBit/adaptive/direct/folded/symbolBit_roundtrip, getBit_past_end, direct_past_end")
+                  "rabs_roundtrip, ransBit/adaptive/direct/folded/symbolBit_roundtrip, getBit_past_end, direct_past_end, "
+                  "encoder_buffer_refines_items, buffer_items_roundtrip (stateful EncoderBuffer vs item-wise specification)")
 CORRESPONDENCE_ONLY = ""
 EXPLANATION = "Lean theorems about the executable model of the primitives + byte-exact correspondence with the real classes"
 
@@ -146,6 +148,34 @@ def generate(rng, tier):
             return None
         cases.append(Case(f"bc_reuse {kind} {ops_str(o1)} {ops_str(o2)}", flavour="asan", oracle=reuse_oracle,
                           tags=(f"bc_reuse_{kind}",)))
+    # ONE EncoderBuffer, all interleavings of byte-mode writes and bit regions with / without stored size; ONE
+    # DecoderBuffer reads the items back (theorems encoder_buffer_refines_items, buffer_items_roundtrip)
+    def buf_oracle(hout, case):
+        t = hout.split()
+        if t[0] == "fail":
+            return None     # a write call reported failure: compared with the model only
+        if len(t) != 3 or t[2] != "T":
+            return ("buffer-interleaving", f"items written to one EncoderBuffer are not read back: {' '.join(t[2:])[:120]} for `{case.op[:300]}`")
+        return None
+    for c in range(1500 if thorough else 300):
+        items = []
+        for _ in range(rng.choice((1, 2, 3, 5, 9, 16))):
+            k = rng.random()
+            if k < 0.3:
+                items.append("r" + (gen.hexs(gen.rand_bytes(rng, rng.choice((1, 2, 4, 8, 3, 17))))))
+            elif k < 0.45:
+                items.append(f"v{gen.boundary_int(rng, rng.choice((8, 16, 32, 64)), False)}")
+            else:
+                ops = rand_ops(rng, rng.choice((0, 1, 2, 7, 40, 300)), rng.choice(biases), 1, 0)
+                nbits = sum(nb for _, nb, _ in ops)
+                # the caller's reservation: exact, rounded up, or generous (never less than what is written)
+                req = max(1, rng.choice((nbits, nbits + rng.randint(0, 64), (nbits + 7) // 8 * 8, nbits * 2 + 1)))
+                if rng.random() < 0.02:
+                    req = 0     # StartBitEncoding refuses an empty reservation on both sides
+                items.append(("s" if rng.random() < 0.5 else "n") + f"{req}:" + (";".join(f"{nb}.{v}" for _, nb, v in ops) or "-"))
+        trail = gen.rand_bytes(rng, rng.choice((0, 0, 1, 5)))
+        line = "buf_seq " + " ".join(items) + (f" t{gen.hexs(trail)}" if trail else "")
+        cases.append(Case(line, oracle=buf_oracle, flavour="asan", tags=("buf_seq",)))
     cases_extra = cases
     cases = []
     # encoder: model bytes == implementation bytes
